@@ -169,6 +169,16 @@ var compiledClass = map[string]func(string) templ.CSSClass{
 	"background-image": clsBackgroundImage, "font-family": clsFontFamily, "display": clsDisplay, "color": clsColor, "margin": clsMargin,
 }
 
+// css components whose parameter is a named string type other than templ.SafeCSSProperty
+var compiledNamed = map[string][]func(string) templ.CSSClass{
+	"color": {
+		func(v string) templ.CSSClass { return clsColorNamed(colour(v)) },
+		func(v string) templ.CSSClass { return clsColorSafeURL(templ.SafeURL(v)) },
+	},
+	"background-image": {func(v string) templ.CSSClass { return clsBackgroundImageNamed(colour(v)) }},
+	"font-family":      {func(v string) templ.CSSClass { return clsFontFamilyNamed(colour(v)) }},
+}
+
 func checkPair(prop, value string, compiled bool) {
 	evals.Add(1)
 	want := expectName(prop)
@@ -219,22 +229,31 @@ func checkPair(prop, value string, compiled bool) {
 	compiledRenders.Add(1)
 	checkStyleAttr("compiled style={map}", prop, value, render(StyleMap(map[string]string{prop: value})), want)
 	checkStyleAttr("compiled style={kv}", prop, value, render(StyleKV(templ.KV(prop, value))), want)
+	var fs []func(string) templ.CSSClass
 	if f, ok := compiledClass[prop]; ok {
+		fs = append(fs, f)
+	}
+	fs = append(fs, compiledNamed[prop]...)
+	for i, f := range fs {
+		entry := "compiled css component"
+		if i > 0 {
+			entry = "compiled css component with a named string type parameter"
+		}
 		html := render(UseClass(f(value)))
 		r := htmltok.Tokenize(html)
 		if htmltok.Skeleton(r.Tokens) != "<style type>T(rawtext)</style><div class></div>" {
-			report("compiled css component", prop, value, html, "ends-style-element")
+			report(entry, prop, value, html, "ends-style-element")
 			return
 		}
 		css := r.Tokens[1].Raw
 		cls := r.Tokens[3].Attrs[0].Value
 		if !strings.HasPrefix(css, "."+cls+"{") || !strings.HasSuffix(css, "}") {
-			report("compiled css component", prop, value, html, "rule text not .class{...}")
+			report(entry, prop, value, html, "rule text not .class{...}")
 			return
 		}
 		decl := css[len(cls)+2 : len(css)-1]
 		if pr := cssProblem(decl, want); pr != "" {
-			report("compiled css component", prop, value, css, pr)
+			report(entry, prop, value, css, pr)
 		}
 	}
 }
@@ -262,7 +281,10 @@ func checkStyleAttr(entry, prop, value, html, want string) {
 
 func main() {
 	run = vlib.Start("C05", "exploration")
-	valTokens := []string{";", ":", "{", "}", "(", ")", "\"", "'", "\\", "/", "*", "<", ">", ",", "@", "!", "-", "0", "a", "url", "expression", "javascript", "http", " ", "\n"}
+	valTokens := []string{";", ":", "{", "}", "(", ")", "\"", "'", "\\", "/", "*", "<", ">", ",", "@", "!", "-", "0", "a", "url", "expression", "javascript", "http", " ", "\n", "\f"}
+	if run.Pick(0, 1) == 1 {
+		valTokens = append(valTokens, "\r")
+	}
 	props := []string{"background-image", "font-family", "display", "color", "margin", "COLOR", "a;b", "", "-", "x y"}
 	nameTokens := []string{"color", "-", "a", "A", ";", ":", "{", "}", " ", "\n", "\"", "<", "/", "*", "\\", "é", "0", "_"}
 	valLen := run.Pick(4, 5)
@@ -274,7 +296,7 @@ func main() {
 		vlib.SeqsParallel(valTokens, valLen, workers, func(_ int, v string) { checkPair(p, v, true) })
 	}
 	// shaped families: url(Q x Q) for background-image, "x", y for font-family
-	inner := []string{"a", "/", ":", "javascript", "http", "\"", "'", ")", "(", ";", "}", "\\", " ", "\n", "<", ","}
+	inner := []string{"a", "/", ":", "javascript", "http", "\"", "'", ")", "(", ";", "}", "\\", " ", "\n", "<", ",", "\r", "\f"}
 	innerLen := run.Pick(3, 4)
 	shaped := 0
 	vlib.SeqsParallel(inner, innerLen, workers, func(_ int, x string) {
